@@ -100,7 +100,10 @@ Section Check.
   (* a round of requests that were served CONCURRENTLY, listed in the one-at-a-time order read off the stored log (by
      the log position each response reports); a refused request changed nothing and may stand anywhere from its listed
      place on; the store is compared after the round *)
-  | WRound (items : list (str * str * ppp * ppp)) (g : dbdig).
+  | WRound (items : list (str * str * ppp * ppp)) (g : dbdig)
+  (* the REST patch endpoint stored operations of its own (an administrative client that is not modelled): the store moves
+     on as observed — the new operation documents are taken over, the datatype documents are the observed ones *)
+  | WRest (newops : list odoc) (g : dbdig).
 
   Record wsys := mkWsys { ws_db : sdb; ws_dts : list (str * str * wdty); ws_ss : snapstore }.    (* (collection, cuid, datatype) *)
 
@@ -196,6 +199,7 @@ Section Check.
                    then update_snapshot St k_init k_remote k_marshal k_unmarshal k_view (ws_db s) (ws_ss s) col d else ws_ss s in
         if db_matches (ws_db s) g && ss_matches ss' g then Some (mkWsys (ws_db s) (ws_dts s) (ss_adopt ss' g)) else None
     | WRound _ _ => None
+    | WRest _ _ => None
     end.
 
   Definition item_matches (db : sdb) (it : str * str * ppp * ppp) : option sdb :=
@@ -227,6 +231,9 @@ Section Check.
                       end
         | None => None
         end
+    | WRest newops g =>
+        let db' := mkSdb (s_cols (ws_db s)) (s_colctr (ws_db s)) (s_clients (ws_db s)) (g_dts g) (s_ops (ws_db s) ++ newops) in
+        if db_matches db' g then Some (mkWsys db' (ws_dts s) (ss_adopt (ws_ss s) g)) else None
     | _ => wstep0 s e
     end.
 
@@ -297,6 +304,7 @@ Arguments WSyncRpc {call}.
 Arguments WRawErr {call}.
 Arguments WSnapUpd {call}.
 Arguments WRound {call}.
+Arguments WRest {call}.
 
 Definition check_wire_counter : list (wev ccall) -> bool :=
   check_whist cstate ccall val cstate c_init c_validate c_local' c_exec_remote id_ id_ c_view (fun s => s) RVal 0 c_marshal c_unmarshal.
